@@ -20,7 +20,8 @@ TABLE = {
             "Collocation/algebraic/continuity rows are compared with defects computed from independently derived "
             "collocation points and Lagrange weights at random decision vectors.",
             "Trusted: numpy Legendre/Radau points and Lagrange differentiation, read-back of helper states.", "5/C02"),
-    "C03": ("convergence-order monitor (implied flow/integral vs scipy solve_ivp, M in 1..16)", "exploration",
+    "C03": ("convergence-order monitor (implied flow/integral vs scipy solve_ivp, M in 1..16; B-spline inputs: exact vs "
+            "frozen-signal reference flow)", "exploration",
             "Implied end state and integral for M=1,2,4,8 compared with a 1e-12 reference flow; observed order "
             "must reach the classical order minus a margin.", "Bounded restatement of an asymptotic claim; "
             "trusted: scipy solve_ivp.", "5/C03"),
